@@ -179,6 +179,16 @@ def run_case(ctx, case):
         out2 = np.array(c.calculate(np.array(r), np.array(gam)), dtype=float)
         if not np.array_equal(out, out2, equal_nan=True):
             ctx.violation('closure:not-repeatable', '%s: second identical call differs' % cname)
+        # --- an array returned earlier is not disturbed by later calls on the same object, also when it is fed back as gamma
+        craw = c.calculate(np.array(r), np.array(gam))
+        ckeep = np.array(craw, copy=True)
+        c.calculate(np.array(r), np.array(gam) * 0.5 + 0.1)
+        fed = c.calculate(np.array(r), craw)                       # iterate: gamma <- previous c (the very same array object)
+        want = np.array(fresh().calculate(np.array(r), np.array(ckeep)), dtype=float)
+        if not np.array_equal(np.asarray(craw), ckeep, equal_nan=True):
+            ctx.violation('closure:earlier-result-overwritten', '%s(hc=%s): an array returned by calculate changed after later calls on the same object' % (cname, hc))
+        elif not np.array_equal(np.asarray(fed, dtype=float), want, equal_nan=True):
+            ctx.violation('closure:wrong-when-output-fed-back', '%s(hc=%s): calculate(r, previous_output) differs from the evaluation on a copy of that array' % (cname, hc))
         # --- the same object re-used with another potential and sigma (a closure carries no memory of earlier calls)
         ctx.hook('object_reuse_probe')
         u_new = np.array(u[::-1]) * float(rng.uniform(0.3, 2.0)) + (0.25 if pk != 'step' else 0.0)
